@@ -64,13 +64,19 @@ class FCompound(enum.Flag):
     A = 4
 
 
+class FOverlap(enum.Flag):
+    rw = 3         # two compound members that overlap in bit 1; bits 0 and 1 have no member of their own
+    wx = 6
+    x = 4
+
+
 class FSkip(enum.Flag):
     a = 1
     A = 4          # bit 2 skipped: documented as unsupported for the by-value representation
 
 
 ENUMS = {"E1": E1, "EStr": EStr, "EInt": EInt, "EAlias": EAlias, "EUnhash": EUnhash}
-FLAGS = {"F3": F3, "FZero": FZero, "FCompound": FCompound}
+FLAGS = {"F3": F3, "FZero": FZero, "FCompound": FCompound, "FOverlap": FOverlap}
 COMMON = {
     "raises-closed": "implies(raised, isinstance(exc, LoadError))",
     "culprit": "implies(raised and isinstance(exc, LoadError), exc.input_value is data)",
@@ -183,6 +189,9 @@ def flag_spec(fl, allow_single, allow_dups, allow_compound, strict):
     return accepts, value
 
 
+# the only enum / flag loaders with a strict mode: one `flag_spec` gives the strict and the lax acceptance (strict = lax minus mappings),
+# so accept-iff + value of both units carry "strict only narrows, equal value" (C07)
+CPF = {**CP, "accept-iff": ["C18", "C02", "C07"], "value": ["C18", "C02", "C01", "C07"], "strict-origin": ["C07"]}
 for (name, fl), single, dups, compound, strict in itertools.product(FLAGS.items(), (False, True), (False, True),
                                                                     (False, True), (False, True)):
     label = f"{name}-single{int(single)}-dups{int(dups)}-compound{int(compound)}-{'strict' if strict else 'lax'}"
@@ -193,10 +202,13 @@ for (name, fl), single, dups, compound, strict in itertools.product(FLAGS.items(
              props=["C18", "C04", "C02", "C05", "C07", "C20", "C01"],
              via=Via("FlagByListProvider._make_loader", {label: recv},
                      kwargs={"enum": ("const", fl), "strict_coercion": ("const", strict)}, any_closure=True),
-             params={"data": "D"}, prefer_shadow=True, clause_props=CP, consts={"ACCEPTS": acc, "VALUE": val},
+             params={"data": "D"}, prefer_shadow=True, clause_props=CPF, consts={"ACCEPTS": acc, "VALUE": val, "STRICT": strict, "MappingABC": Mapping},
              post={**COMMON,
                    "accept-iff": "returned == py(lambda d: ACCEPTS(d), data)",
-                   "value": "implies(returned, py(lambda d, r: r == VALUE(d) and type(r) is type(VALUE(d)), data, result))"},
+                   "value": "implies(returned, py(lambda d, r: r == VALUE(d) and type(r) is type(VALUE(d)), data, result))",
+                   # C07, second sentence: a mapping (and a str, which is a collection of characters) is outside the allowed strict
+                   # origins of a list of names
+                   "strict-origin": "implies(returned and STRICT, py(lambda d: not isinstance(d, MappingABC), data))"},
              cover=["returned", "raised"], max_paths=20000,
              notes=[f"flag {name} allow_single_value={single} allow_duplicates={dups} allow_compound={compound} strict={strict}"])
 
@@ -211,28 +223,44 @@ for (name, fl), compound in itertools.product(FLAGS.items(), (False, True)):
              notes=[f"dumper creation for flag {name}, allow_compound={compound}"])
 
 
+def _union_of(fl, names):
+    r = fl(0)
+    for n in names:
+        r |= fl[n]
+    return r
+
+
 # ---------------------------------------------------------------------------------------------- flag by member names: dumper
 # every call builds a NEW list (C20) holding the names of the members contained in the value (C18)
 for (name, fl), compound in itertools.product(FLAGS.items(), (False, True)):
     mask = 0
     for mem in fl.__members__.values():
         mask |= mem.value
-    for v in sorted({0, 1, 3, mask}):
+    cases = [m_ for m_ in fl.__members__.values() if compound or (m_.value > 0 and m_.value & (m_.value - 1) == 0)]
+    for v in range(0, mask + 1):
         try:
             val = fl(v)
         except ValueError:
             continue
+        # the part of the value the representation can express: the union of the (allowed) members it contains
+        part = fl(0)
+        for m_ in cases:
+            if m_ in val:
+                part |= m_
         label = f"dump-{name}-compound{int(compound)}-{v}"
         contract(F, "FlagByListProvider._make_dumper", name=f"{F}:FlagByListProvider._make_dumper[{label}]",
-                 props=["C18", "C20"],
+                 props=["C18", "C20", "C01"],
                  via=Via("FlagByListProvider._make_dumper",
                          {label: (lambda m, compound=compound: m.FlagByListProvider(m.ByNameEnumMappingGenerator(), allow_compound=compound))},
                          kwargs={"enum": ("const", fl)}, any_closure=True),
-                 params={"value": ("const", val)}, consts={"FL": fl, "VAL": val},
+                 params={"value": ("const", val)}, consts={"FL": fl, "VAL": val, "PART": part, "union_of": _union_of},
                  post={"raises-nothing": "returned",
                        "fresh-result": "implies(returned, is_fresh(result) and type(result) is list)",
                        "names-of-contained-members": ("implies(returned, py(lambda r: all(n in FL.__members__ and FL[n] in VAL "
-                                                      "for n in r), result))")},
+                                                      "for n in r), result))"),
+                       # ... and of ENOUGH of them: together the named members give back every bit that (allowed) members of the
+                       # value carry, else loading the names returns a different flag
+                       "names-cover-the-value": "implies(returned, py(lambda r: union_of(FL, r) == PART, result))"},
                  clause_props={"fresh-result": ["C20"], "names-of-contained-members": ["C18"], "raises-nothing": ["C18"],
-                               "modifies-nothing": ["C20"]},
+                               "names-cover-the-value": ["C18", "C01"], "modifies-nothing": ["C20"]},
                  notes=[f"flag {name} value {v} allow_compound={compound}"])
